@@ -1,5 +1,8 @@
 import GoagModel.Basic
 import GoagModel.Embed
+import GoagModel.Spec
+import GoagModel.Serve
+import GoagModel.Ref
 /-
   Line-protocol driver: one tab-separated request per line on stdin, one answer line on
   stdout.  The first field selects the model function.  Imports only executable model
@@ -13,34 +16,109 @@ def optHex : Option Str → String
   | none => "none"
   | some s => "v:" ++ hexOfStr s
 
-def handle (fields : List String) : String :=
+structure State where
+  doc : Option Spec.Doc := none
+  api : Option Serve.ApiM := none
+  cors : Bool := false
+  leaf : Serve.LeafTable := []
+
+def unhexD (h : String) : String := (fromHex h).getD "?bad-hex?"
+
+/-- `k=v1,v2;k2=...` with hex keys and values -/
+def parseMulti (s : String) (hexKeys : Bool) : List (String × List String) :=
+  if s.isEmpty then [] else
+  (s.splitOn ";").filterMap (fun kv =>
+    match kv.splitOn "=" with
+    | [k, vs] => some (if hexKeys then unhexD k else k, if vs.isEmpty then [] else (vs.splitOn ",").map unhexD)
+    | _ => none)
+
+def flag (s : String) : Bool := s == "1"
+
+def refVerdict (st : State) (doc : Spec.Doc) (api : Serve.ApiM) (cors : Bool) (cfg : Serve.Cfg) (req : Serve.Req) : String :=
+  if cfg.spec && req.path == api.base ++ "/" ++ api.specName then "spec|-|-" else
+  match Ref.refRoute doc api.base (cors && cfg.cors) req.method req.path with
+  | none => "nf|-|-"
+  | some (.cors tpl) =>
+      match doc.paths.find? (·.raw == tpl) with
+      | some pi => s!"cors({",".intercalate (Ref.refCorsMethods pi)};{",".intercalate ((Ref.refCorsHeaders doc pi).toArray.qsort (· < ·)).toList})|-|-"
+      | none => "cors(?)|-|-"
+  | some (.op m tpl) =>
+    match (doc.paths.find? (·.raw == tpl)).bind (fun pi => pi.ops.find? (·.method == m)) with
+    | none => "op(?)|-|-"
+    | some o =>
+      let pp := if (o.parameters.any (·.loc == "path")) then
+          match Ref.refPathParams st.leaf api.base tpl o req.path with
+          | .ok vs => "ok Path[" ++ ",".intercalate vs ++ "]"
+          | .error fs => "err{" ++ ",".intercalate (fs.map (fun (n, k) => toHex n ++ ":" ++ k)) ++ "}"
+        else "ok"
+      let a := match Ref.refAuth doc o cfg req with
+        | .pub => "pub"
+        | .ran s t => s!"ran({s}:{t})"
+        | .denied => "401"
+      s!"op({m} {tpl})|{a}|{pp}"
+
+/-- known-finding classes the input belongs to (decidable predicates over spec, config, request) -/
+def kfClasses (doc : Spec.Doc) (api : Serve.ApiM) (cors : Bool) (cfg : Serve.Cfg) (req : Serve.Req) : List String :=
+  if cfg.spec && req.path == api.base ++ "/" ++ api.specName then [] else
+  match Ref.refRoute doc api.base (cors && cfg.cors) req.method req.path with
+  | some (.cors _) => []
+  | some (.op m tpl) =>
+    match (doc.paths.find? (·.raw == tpl)).bind (fun pi => pi.ops.find? (·.method == m)) with
+    | none => []
+    | some o =>
+      let alts := Serve.effectiveReqs doc o
+      (if alts.any (fun a => a.length != 1) then ["KF-C11-arity"] else []) ++
+      (if alts.any (fun a => a.any (fun n => (Ref.schemeRef doc n).isNone)) then ["KF-C11-unsupported"] else [])
+  | none => []
+
+def handle (st : State) (fields : List String) : IO (State × String) := do
   match fields with
   | ["embed", id, h] =>
     match fromHex h with
-    | none => s!"{id}\tbad-input"
+    | none => pure (st, s!"{id}\tbad-input")
     | some s =>
       let e := Embed.encodeRaw s.toList
-      s!"{id}\t{hexOfStr e}\t{optHex (Embed.goEval e)}"
+      pure (st, s!"{id}\t{hexOfStr e}\t{optHex (Embed.goEval e)}")
   | ["embedold", id, h] =>
     match fromHex h with
-    | none => s!"{id}\tbad-input"
+    | none => pure (st, s!"{id}\tbad-input")
     | some s =>
       let e := Embed.encodeOld s.toList
-      s!"{id}\t{hexOfStr e}\t{optHex (Embed.goEval e)}"
+      pure (st, s!"{id}\t{hexOfStr e}\t{optHex (Embed.goEval e)}")
   | ["goeval", id, h] =>
     match fromHex h with
-    | none => s!"{id}\tbad-input"
-    | some s => s!"{id}\t{optHex (Embed.goEval s.toList)}"
-  | _ => "bad-op"
+    | none => pure (st, s!"{id}\tbad-input")
+    | some s => pure (st, s!"{id}\t{optHex (Embed.goEval s.toList)}")
+  | ["api", pkg, path, baseHex, nameHex, corsF] =>
+    let txt ← IO.FS.readFile path
+    match Lean.Json.parse txt with
+    | .error e => pure ({ st with doc := none, api := none }, s!"{pkg}\tunmodelled:json {e}")
+    | .ok j =>
+      match Spec.readDoc j with
+      | .error e => pure ({ st with doc := none, api := none }, s!"{pkg}\tunmodelled:{e}")
+      | .ok doc =>
+        match Serve.plan doc (unhexD baseHex) (unhexD nameHex) (flag corsF) with
+        | .error e => pure ({ st with doc := some doc, api := none }, s!"{pkg}\tplan-error:{e}")
+        | .ok api => pure ({ st with doc := some doc, api := some api, cors := flag corsF }, s!"{pkg}\tplan-ok base={api.base}")
+  | ["serve", id, method, pathHex, mws, nf, spec, cors, parse, auth, query, headers] =>
+    match st.doc, st.api with
+    | some doc, some api =>
+      let req : Serve.Req := { method := method, path := unhexD pathHex, query := parseMulti query true, headers := parseMulti headers true }
+      let cfg : Serve.Cfg := { mws := mws.toNat!, nf := flag nf, spec := flag spec, cors := flag cors, parse := flag parse, auth := parseMulti auth false }
+      let tr := Serve.renderTrace (Serve.serve st.leaf api cfg req)
+      pure (st, s!"{id}\t{tr}\tR:{refVerdict st doc api st.cors cfg req}\tK:{",".intercalate (kfClasses doc api st.cors cfg req)}")
+    | _, _ => pure (st, s!"{id}\tno-model")
+  | _ => pure (st, "bad-op")
 
-partial def loop (h : IO.FS.Stream) (out : IO.FS.Stream) : IO Unit := do
+partial def loop (h : IO.FS.Stream) (out : IO.FS.Stream) (st : State) : IO Unit := do
   let line ← h.getLine
   if line.isEmpty then return ()
   let l := (line.dropEndWhile (fun c => c == '\n' || c == '\r')).toString
-  out.putStrLn (handle (l.splitOn "\t"))
-  loop h out
+  let (st', ans) ← handle st (l.splitOn "\t")
+  out.putStrLn ans
+  loop h out st'
 
 def main : IO Unit := do
   let out ← IO.getStdout
-  loop (← IO.getStdin) out
+  loop (← IO.getStdin) out {}
   out.flush
